@@ -8,13 +8,14 @@ from harness.run import Result
 from harness.common import struct_hash
 
 ID = "C18"
-LEAN_MODULES = ["Pypika.Props.C18", "Pypika.Props.Builder"]
+LEAN_MODULES = ["Pypika.Props.C18", "Pypika.Props.Builder", "Pypika.TermFrame"]
 TRACE_BUILDER = True   # function / CASE builder calls are also run through Pypika.B.stepT (harness/trace.py)
 THEOREMS = ["Pypika.C18.edge_reads_back", "Pypika.C18.unbounded_iff", "Pypika.C18.renderL_eq_map",
             "Pypika.C18.renderL_length", "Pypika.C18.plain_layout", "Pypika.C18.full_layout",
             # term-level builders (Builder.lean stepT, tied call by call through harness/trace.py)
-            "Pypika.B.filter_filter", "Pypika.B.filter_is_all", "Pypika.B.over_accumulates", "Pypika.B.orderby_accumulates", "Pypika.B.filter_over_commute", "Pypika.B.over_orderby_commute", "Pypika.B.when_appends", "Pypika.B.else_last_wins", "Pypika.B.when_else_commute"]
-AGREE = ["Pypika.Agree.edges"]
+            "Pypika.B.filter_filter", "Pypika.B.filter_is_all", "Pypika.B.over_accumulates", "Pypika.B.orderby_accumulates", "Pypika.B.filter_over_commute", "Pypika.B.over_orderby_commute", "Pypika.B.when_appends", "Pypika.B.else_last_wins", "Pypika.B.when_else_commute",
+            "Pypika.B.stepT_frame_func", "Pypika.B.stepT_frame_case"]
+AGREE = ["Pypika.Agree.edges", "Pypika.Agree.term_writes_agree"]
 TRUSTED = ["the reference layout NAME([DISTINCT ]args[ special]) [FILTER(WHERE c)] [OVER([PARTITION BY ..][ ORDER BY ..][ frame])] "
            "as the reading of the prose property"]
 RULE = ("every Function subclass discovered in pypika.functions / pypika.analytics / pypika.terms, built with distinguishable "
